@@ -32,6 +32,6 @@ Definition ex_results : list res :=
   repeat ok_res 13
   ++ [emit_res ex_tree;
       stuck_res (EUseAfterEmit, 14);
-      {| r_ret := RErr (EUseAfterEmit, 15); r_plan := None; r_after := Some (EUseAfterEmit, 14) |};
+      stuck_res (EUseAfterEmit, 14);
       ok_res; ok_res; ok_res; ok_res;
       stuck_res (EDuplicate, 20); stuck_res (EDuplicate, 20); stuck_res (EDuplicate, 20)].
